@@ -40,7 +40,11 @@ func runNative(repo, verif string, spec *Spec, hdir string, ps PkgSpec, funcs []
 	if err != nil {
 		return nil, "", err
 	}
-	defer os.RemoveAll(tmp)
+	if os.Getenv("GOSMT_KEEP") != "" {
+		fmt.Fprintln(os.Stderr, "keeping replay dir", tmp)
+	} else {
+		defer os.RemoveAll(tmp)
+	}
 	api, err := apiFile(verif, ps.Name, true)
 	if err != nil {
 		return nil, "", err
@@ -60,7 +64,10 @@ func runNative(repo, verif string, spec *Spec, hdir string, ps PkgSpec, funcs []
 	var tb strings.Builder
 	fmt.Fprintf(&tb, "package %s\n\nimport \"testing\"\n\nfunc TestZZReplay(t *testing.T) {\n\tzzRunReplay(map[string]func(){\n", ps.Name)
 	sort.Strings(funcs)
-	for _, f := range funcs {
+	for i, f := range funcs {
+		if i > 0 && funcs[i-1] == f {
+			continue
+		}
 		fmt.Fprintf(&tb, "\t\t%q: %s,\n", f, f)
 	}
 	tb.WriteString("\t})\n}\n")
@@ -82,7 +89,8 @@ func runNative(repo, verif string, spec *Spec, hdir string, ps PkgSpec, funcs []
 	cmd.Stderr = &out
 	runErr := cmd.Run()
 	res := make([]nativeResult, len(cases))
-	sc := bufio.NewScanner(&out)
+	outStr := out.String()
+	sc := bufio.NewScanner(strings.NewReader(outStr))
 	sc.Buffer(make([]byte, 1<<20), 1<<26)
 	seen := 0
 	for sc.Scan() {
@@ -109,9 +117,9 @@ func runNative(repo, verif string, spec *Spec, hdir string, ps PkgSpec, funcs []
 		}
 	}
 	if seen < len(cases) {
-		return res, out.String(), fmt.Errorf("native replay produced %d of %d results (go test: %v)", seen, len(cases), runErr)
+		return res, outStr, fmt.Errorf("native replay produced %d of %d results (go test: %v)", seen, len(cases), runErr)
 	}
-	return res, out.String(), nil
+	return res, outStr, nil
 }
 
 func expectMatches(expect, outcome string) bool {
